@@ -15,6 +15,10 @@ use std::collections::BTreeMap;
 pub struct Model {
     pub v: [i32; 2],
     pub m: [BTreeMap<i32, i32>; 2],
+    /// Implementation mirror only: the `previous` event a map lane still holds because the modification that
+    /// recorded it was dropped (see `Quirk::*Drops`). `item_event` takes it the next time the lane reports a
+    /// modification without recording a new one, i.e. on the removal of an absent key.
+    stale: [Option<Casc>; 2],
 }
 
 impl Model {
@@ -97,15 +101,13 @@ pub struct Stats {
 
 pub const RECORD_BUDGET: usize = 4000;
 
-/// Marker left by the most recent lane mutation of the current frame, after its cascade completed.
-#[derive(Clone)]
-struct LastMut {
-    /// Length of `out` / `spawned` before the cascade's first record.
-    out_len: usize,
-    spawned_len: usize,
-    /// The model right after the mutation itself, before any triggered handler ran.
-    model: Model,
-    quirks_len: usize,
+/// The handlers a lane mutation triggers (with the arguments they receive).
+#[derive(Clone, Debug, PartialEq, Eq)]
+enum Casc {
+    Value { lane: u8, v: i32, prev: i32 },
+    Update { lane: u8, k: i32, prev: Option<i32>, v: i32, map: Vec<(i32, i32)> },
+    Remove { lane: u8, k: i32, prev: i32, map: Vec<(i32, i32)> },
+    Clear { lane: u8, prev: Vec<(i32, i32)> },
 }
 
 /// The places where the implementation evaluates a continuation closure in the *same step* in which the
@@ -131,6 +133,29 @@ impl Quirk {
     }
 }
 
+/// Which of the `Quirk` sites are mirrored (all false = documented semantics).
+#[derive(Clone, Copy, Debug, Default, PartialEq, Eq)]
+pub struct QuirkSet {
+    pub ctx: bool,
+    pub and_then_try: bool,
+    pub try_handler: bool,
+}
+
+impl QuirkSet {
+    pub fn any(&self) -> bool {
+        self.ctx || self.and_then_try || self.try_handler
+    }
+    pub fn count(&self) -> usize {
+        self.ctx as usize + self.and_then_try as usize + self.try_handler as usize
+    }
+    /// The 7 non-empty sets.
+    pub fn all_nonempty() -> Vec<QuirkSet> {
+        (1u8..8)
+            .map(|b| QuirkSet { ctx: b & 1 != 0, and_then_try: b & 2 != 0, try_handler: b & 4 != 0 })
+            .collect()
+    }
+}
+
 pub struct Ref<'a> {
     pub t: &'a Tables,
     pub model: Model,
@@ -138,12 +163,16 @@ pub struct Ref<'a> {
     pub spawned: Vec<u16>,
     pub stats: Stats,
     overflow: bool,
-    /// The last executed step of the current frame completed with a (triggering) lane modification.
-    tail: bool,
-    last_mut: Option<LastMut>,
-    /// false: documented semantics; true: mirror the implementation at the `Quirk` sites.
-    pub quirk_mode: bool,
-    /// Quirk sites met while executing the current block.
+    /// false: documented semantics (a change's handlers run before anything else of the handler that made
+    /// it). true: mirror the implementation: when the operand of `and_then*` / `try_handler` completes in the
+    /// very step that modified a lane, the continuation closure is evaluated first and the triggered handlers
+    /// run afterwards (or never, if the closure fails).
+    pub quirk_mode: QuirkSet,
+    /// quirk mode: the cascade of the operand's final modification, not yet run.
+    pending: Option<Casc>,
+    /// An operand completed in the step that modified a lane (the two semantics may differ in this block).
+    pub saw_tail_modification: bool,
+    /// Quirk sites where the two semantics do differ, met while executing the current block.
     pub quirks: Vec<Quirk>,
 }
 
@@ -191,15 +220,14 @@ impl<'a> Ref<'a> {
             spawned: vec![],
             stats: Stats::default(),
             overflow: false,
-            tail: false,
-            last_mut: None,
-            quirk_mode: false,
+            quirk_mode: QuirkSet::default(),
+            pending: None,
+            saw_tail_modification: false,
             quirks: vec![],
         }
     }
 
     fn push(&mut self, r: Rec) {
-        self.tail = false;
         if self.out.len() >= RECORD_BUDGET {
             self.overflow = true;
         } else {
@@ -214,95 +242,141 @@ impl<'a> Ref<'a> {
         let t = self.t;
         let body = &t.lane[lane as usize][kind.slot()];
         let mut fs = FrameState::default();
-        let flow = self.run(body, &mut fs, depth);
+        let flow = self.run(body, &mut fs, depth, false);
         if flow == Flow::Done {
             self.push(Rec::Leave { lane, kind });
         }
         (flow, fs.sum)
     }
 
-    fn mark(&self) -> LastMut {
-        LastMut {
-            out_len: self.out.len(),
-            spawned_len: self.spawned.len(),
-            model: self.model.clone(),
-            quirks_len: self.quirks.len(),
+    /// Apply a primitive mutation to the model; `None` when it changes nothing and triggers nothing.
+    fn apply(&mut self, m: &P) -> Option<Casc> {
+        match m {
+            P::Set { lane, v } => {
+                self.stats.mutations += 1;
+                let prev = std::mem::replace(&mut self.model.v[(*lane / 2) as usize], *v);
+                if prev == *v {
+                    self.stats.same_value_sets += 1;
+                }
+                Some(Casc::Value { lane: *lane, v: *v, prev })
+            }
+            P::Upd { lane, k, v } => {
+                self.stats.mutations += 1;
+                self.model.stale[(*lane / 2) as usize] = None;
+                let prev = self.model.m[(*lane / 2) as usize].insert(*k, *v);
+                Some(Casc::Update { lane: *lane, k: *k, prev, v: *v, map: self.model.snapshot(*lane) })
+            }
+            P::Rem { lane, k } => match self.model.m[(*lane / 2) as usize].remove(k) {
+                // removing an absent key changes nothing and triggers nothing (map_storage::remove)
+                None => {
+                    self.stats.noop_removes += 1;
+                    // (implementation mirror) a stale `previous` is consumed now, with the current map
+                    let stale = self.model.stale[(*lane / 2) as usize].take();
+                    let map_now = self.model.snapshot(*lane);
+                    stale.map(|c| match c {
+                        Casc::Update { lane, k, prev, .. } => {
+                            let v = map_now.iter().find(|(key, _)| *key == k).map(|(_, v)| *v).unwrap_or_default();
+                            Casc::Update { lane, k, prev, v, map: map_now }
+                        }
+                        Casc::Remove { lane, k, prev, .. } => Casc::Remove { lane, k, prev, map: map_now },
+                        other => other,
+                    })
+                }
+                Some(prev) => {
+                    self.stats.mutations += 1;
+                    self.model.stale[(*lane / 2) as usize] = None;
+                    Some(Casc::Remove { lane: *lane, k: *k, prev, map: self.model.snapshot(*lane) })
+                }
+            },
+            P::Clr { lane } => {
+                self.stats.mutations += 1;
+                let prev = self.model.snapshot(*lane);
+                if prev.is_empty() {
+                    self.stats.empty_clears += 1;
+                }
+                self.model.stale[(*lane / 2) as usize] = None;
+                self.model.m[(*lane / 2) as usize].clear();
+                Some(Casc::Clear { lane: *lane, prev })
+            }
+            _ => None,
         }
     }
 
-    fn after_cascade(&mut self, fs: &mut FrameState, lane: u8, casc: Sum, mark: LastMut) {
-        self.tail = true;
-        self.last_mut = Some(mark);
+    /// Run the handlers a mutation triggered, to completion, in the frame `fs` of the handler that made it.
+    fn cascade(&mut self, c: Casc, fs: &mut FrameState, depth: usize) -> Flow {
+        let (lane, flow, casc) = match c {
+            Casc::Value { lane, v, prev } => {
+                // on_event then on_set, both with the value that was set
+                let (flow, s1) = self.handler(lane, HK::OnEvent, Rec::OnEvent { lane, v }, depth + 1);
+                let mut casc = Sum { depth: 1 + s1.depth, lanes: s1.lanes };
+                if flow != Flow::Done {
+                    (lane, flow, casc)
+                } else {
+                    let (flow, s2) = self.handler(lane, HK::OnSet, Rec::OnSet { lane, v, prev: Some(prev) }, depth + 1);
+                    casc.depth = casc.depth.max(1 + s2.depth);
+                    casc.lanes |= s2.lanes;
+                    (lane, flow, casc)
+                }
+            }
+            Casc::Update { lane, k, prev, v, map } => {
+                let (flow, s) = self.handler(lane, HK::OnUpdate, Rec::OnUpdate { lane, k, prev, v, map }, depth + 1);
+                (lane, flow, Sum { depth: 1 + s.depth, lanes: s.lanes })
+            }
+            Casc::Remove { lane, k, prev, map } => {
+                let (flow, s) = self.handler(lane, HK::OnRemove, Rec::OnRemove { lane, k, prev, map }, depth + 1);
+                (lane, flow, Sum { depth: 1 + s.depth, lanes: s.lanes })
+            }
+            Casc::Clear { lane, prev } => {
+                let (flow, s) = self.handler(lane, HK::OnClear, Rec::OnClear { lane, prev }, depth + 1);
+                (lane, flow, Sum { depth: 1 + s.depth, lanes: s.lanes })
+            }
+        };
         fs.sum.lanes |= bit(lane) | casc.lanes;
         fs.sum.depth = fs.sum.depth.max(casc.depth);
         fs.any_dirty |= casc.lanes;
         if casc.depth >= 2 {
             fs.deep_dirty |= casc.lanes;
         }
-    }
-
-    fn set(&mut self, lane: u8, v: i32, fs: &mut FrameState, depth: usize) -> Flow {
-        self.stats.mutations += 1;
-        let slot = &mut self.model.v[(lane / 2) as usize];
-        let prev = std::mem::replace(slot, v);
-        if prev == v {
-            self.stats.same_value_sets += 1;
-        }
-        let mark = self.mark();
-        // on_event then on_set, both with the value that was set
-        let (flow, s1) = self.handler(lane, HK::OnEvent, Rec::OnEvent { lane, v }, depth + 1);
-        let mut casc = Sum { depth: 1 + s1.depth, lanes: s1.lanes };
-        if flow != Flow::Done {
-            self.after_cascade(fs, lane, casc, mark);
-            return flow;
-        }
-        let (flow, s2) = self.handler(lane, HK::OnSet, Rec::OnSet { lane, v, prev: Some(prev) }, depth + 1);
-        casc.depth = casc.depth.max(1 + s2.depth);
-        casc.lanes |= s2.lanes;
-        self.after_cascade(fs, lane, casc, mark);
         flow
     }
 
-    fn upd(&mut self, lane: u8, k: i32, v: i32, fs: &mut FrameState, depth: usize) -> Flow {
-        self.stats.mutations += 1;
-        let prev = self.model.m[(lane / 2) as usize].insert(k, v);
-        let map = self.model.snapshot(lane);
-        let mark = self.mark();
-        let (flow, s) = self.handler(lane, HK::OnUpdate, Rec::OnUpdate { lane, k, prev, v, map }, depth + 1);
-        self.after_cascade(fs, lane, Sum { depth: 1 + s.depth, lanes: s.lanes }, mark);
-        flow
-    }
-
-    fn rem(&mut self, lane: u8, k: i32, fs: &mut FrameState, depth: usize) -> Flow {
-        match self.model.m[(lane / 2) as usize].remove(&k) {
-            // removing an absent key changes nothing and triggers nothing (map_storage::remove)
-            None => {
-                self.stats.noop_removes += 1;
-                self.tail = false;
-                Flow::Done
-            }
-            Some(prev) => {
-                self.stats.mutations += 1;
-                let map = self.model.snapshot(lane);
-                let mark = self.mark();
-                let (flow, s) = self.handler(lane, HK::OnRemove, Rec::OnRemove { lane, k, prev, map }, depth + 1);
-                self.after_cascade(fs, lane, Sum { depth: 1 + s.depth, lanes: s.lanes }, mark);
-                flow
+    /// (implementation mirror) a map lane keeps the `previous` event of a dropped modification.
+    fn dropped(&mut self, c: Casc) {
+        match &c {
+            Casc::Value { .. } => {}
+            Casc::Update { lane, .. } | Casc::Remove { lane, .. } | Casc::Clear { lane, .. } => {
+                self.model.stale[(*lane / 2) as usize] = Some(c.clone());
             }
         }
     }
 
-    fn clr(&mut self, lane: u8, fs: &mut FrameState, depth: usize) -> Flow {
-        self.stats.mutations += 1;
-        let prev = self.model.snapshot(lane);
-        if prev.is_empty() {
-            self.stats.empty_clears += 1;
+    pub fn stale_kind(&self, lane: u8) -> Option<&'static str> {
+        if is_value(lane) {
+            return None;
         }
-        self.model.m[(lane / 2) as usize].clear();
-        let mark = self.mark();
-        let (flow, s) = self.handler(lane, HK::OnClear, Rec::OnClear { lane, prev }, depth + 1);
-        self.after_cascade(fs, lane, Sum { depth: 1 + s.depth, lanes: s.lanes }, mark);
-        flow
+        self.model.stale[(lane / 2) as usize].as_ref().map(|c| match c {
+            Casc::Value { .. } => "OnEvent",
+            Casc::Update { .. } => "OnUpdate",
+            Casc::Remove { .. } => "OnRemove",
+            Casc::Clear { .. } => "OnClear",
+        })
+    }
+
+    /// A primitive mutation. `tp`: this step completes the operand of an enclosing `and_then*` /
+    /// `try_handler` (tail position).
+    fn mutate(&mut self, m: &P, fs: &mut FrameState, depth: usize, tp: bool) -> Flow {
+        let Some(c) = self.apply(m) else {
+            return Flow::Done;
+        };
+        if tp {
+            self.saw_tail_modification = true;
+            if self.quirk_mode.any() {
+                // the enclosing site evaluates its closure first and then runs (or drops) the cascade
+                self.pending = Some(c);
+                return Flow::Done;
+            }
+        }
+        self.cascade(c, fs, depth)
     }
 
     fn read(&mut self, src: Src, fs: &FrameState) -> Obs {
@@ -312,156 +386,161 @@ impl<'a> Ref<'a> {
         if fs.any_dirty & bit(src.lane()) != 0 {
             self.stats.read_after_cascade = true;
         }
-        let o = self.model.read(src);
-        self.push(Rec::Got(src, o.clone()));
-        o
+        self.model.read(src)
     }
 
-    /// The implementation at a quirk site: undo the cascade of the modification that completed the first
-    /// operand (the handlers never run; the state change itself stays).
-    fn drop_last_cascade(&mut self) {
-        if let Some(lm) = self.last_mut.take() {
-            self.out.truncate(lm.out_len);
-            self.spawned.truncate(lm.spawned_len);
-            self.quirks.truncate(lm.quirks_len);
-            self.model = lm.model;
-        }
-    }
-
-    /// Evaluate the first operand of an `and_then` / `and_then_contextual` / `and_then_try` and apply the
-    /// continuation closure's own effects.
+    /// Evaluate the first operand of an `and_then` / `and_then_contextual` / `and_then_try`, the continuation
+    /// closure's own effects and (quirk mode) the deferred cascade.
     fn bound(&mut self, first: &V, how: How, fs: &mut FrameState, depth: usize) -> (Flow, i64) {
-        let (f, x) = self.eval(first, fs, depth);
+        self.stats.binds[how_index(how)] += 1;
+        let (f, x) = self.eval(first, fs, depth, true);
         if f != Flow::Done {
             return (f, x);
         }
-        // did `first` complete in the very step that modified a lane?
-        let coincides = self.tail && self.last_mut.is_some();
+        let mut pending = self.pending.take();
         match how {
             How::Then => {}
             How::Ctx(src) => {
-                if coincides {
+                if pending.is_some() && self.quirk_mode.ctx {
+                    // the closure reads the agent before the triggered handlers run
                     self.quirks.push(Quirk::CtxBeforeCascade);
-                }
-                if coincides && self.quirk_mode {
-                    // the closure ran before the triggered handlers: it saw the state right after the
-                    // modification, and its record precedes theirs
-                    let lm = self.last_mut.clone().unwrap();
-                    let o = lm.model.read(src);
-                    self.out.insert(lm.out_len, Rec::CtxGot(src, o));
-                } else {
-                    if fs.deep_dirty & bit(src.lane()) != 0 {
-                        self.stats.nontrivial = true;
+                } else if let Some(c) = pending.take() {
+                    let f = self.cascade(c, fs, depth);
+                    if f != Flow::Done {
+                        return (f, x);
                     }
-                    let o = self.model.read(src);
-                    self.push(Rec::CtxGot(src, o));
                 }
-                self.tail = false;
+                let o = self.read(src, fs);
+                self.push(Rec::CtxGot(src, o));
             }
             How::Try => {
                 if try_fails(x) {
-                    if coincides {
-                        if self.quirk_mode {
-                            self.drop_last_cascade();
+                    if let Some(c) = pending {
+                        if self.quirk_mode.and_then_try {
+                            // the modification is dropped together with the failure: its handlers never run
+                            self.quirks.push(Quirk::AndThenTryDrops);
+                            self.dropped(c);
+                        } else {
+                            let f = self.cascade(c, fs, depth);
+                            if f != Flow::Done {
+                                return (f, x);
+                            }
                         }
-                        self.quirks.push(Quirk::AndThenTryDrops);
                     }
                     return (Flow::Fail, x);
                 }
             }
         }
+        if let Some(c) = pending {
+            let f = self.cascade(c, fs, depth);
+            if f != Flow::Done {
+                return (f, x);
+            }
+        }
         (Flow::Done, x)
     }
 
-    /// Value producing actions: strictly left to right, each sub-action to completion.
-    fn eval(&mut self, v: &V, fs: &mut FrameState, depth: usize) -> (Flow, i64) {
+    /// Value producing actions: strictly left to right, each sub-action to completion. `tp` as in `mutate`.
+    fn eval(&mut self, v: &V, fs: &mut FrameState, depth: usize, tp: bool) -> (Flow, i64) {
         if self.overflow {
             return (Flow::Overflow, 0);
         }
         self.stats.max_value_depth = self.stats.max_value_depth.max(vdepth(v));
         match v {
-            V::Get(src) => (Flow::Done, self.read(*src, fs).scalar()),
-            V::Const(c) => {
-                self.tail = false;
-                (Flow::Done, *c as i64)
+            V::Get(src) => {
+                let o = self.read(*src, fs);
+                self.push(Rec::Got(*src, o.clone()));
+                (Flow::Done, o.scalar())
             }
+            V::Const(c) => (Flow::Done, *c as i64),
             V::After(p, v) => {
                 if mutates_before_end(p) {
                     self.stats.multi_step_first = true;
                 }
-                let f = self.run(p, fs, depth);
+                let f = self.run(p, fs, depth, false);
                 if f != Flow::Done {
                     return (f, 0);
                 }
-                self.eval(v, fs, depth)
+                self.eval(v, fs, depth, tp)
             }
             V::Of(p, c) => {
                 if mutates_before_end(p) {
                     self.stats.multi_step_first = true;
                 }
-                (self.run(p, fs, depth), *c as i64)
+                (self.run(p, fs, depth, tp), *c as i64)
             }
             V::Map(v, c) => {
-                let (f, x) = self.eval(v, fs, depth);
+                let (f, x) = self.eval(v, fs, depth, tp);
                 (f, x.wrapping_add(*c as i64))
             }
             V::Bind { first, how, arms } => {
-                self.stats.binds[how_index(*how)] += 1;
                 let (f, x) = self.bound(first, *how, fs, depth);
                 if f != Flow::Done {
                     return (f, 0);
                 }
-                self.eval(&arms[arm_of(x, arms.len())], fs, depth)
+                self.eval(&arms[arm_of(x, arms.len())], fs, depth, tp)
             }
             V::Join(a, b) => {
-                let (f, x) = self.eval(a, fs, depth);
+                let (f, x) = self.eval(a, fs, depth, false);
                 if f != Flow::Done {
                     return (f, 0);
                 }
-                let (f, y) = self.eval(b, fs, depth);
+                let (f, y) = self.eval(b, fs, depth, tp);
                 (f, x.wrapping_add(y))
             }
             V::Join3(a, b, c) => {
-                let (f, x) = self.eval(a, fs, depth);
+                let (f, x) = self.eval(a, fs, depth, false);
                 if f != Flow::Done {
                     return (f, 0);
                 }
-                let (f, y) = self.eval(b, fs, depth);
+                let (f, y) = self.eval(b, fs, depth, false);
                 if f != Flow::Done {
                     return (f, 0);
                 }
-                let (f, z) = self.eval(c, fs, depth);
+                let (f, z) = self.eval(c, fs, depth, tp);
                 (f, x.wrapping_add(y).wrapping_add(z))
             }
-            V::Opt(v) => self.eval(v, fs, depth),
+            V::Opt(v) => self.eval(v, fs, depth, tp),
             V::Try(v) => {
-                let (f, x) = self.eval(v, fs, depth);
-                if f == Flow::Done && try_fails(x) {
-                    if self.tail && self.last_mut.is_some() {
-                        if self.quirk_mode {
-                            self.drop_last_cascade();
-                        }
-                        self.quirks.push(Quirk::TryHandlerDrops);
-                    }
-                    (Flow::Fail, x)
-                } else {
-                    (f, x)
+                // `try_handler` is itself a site: `Complete { result: Err, modified_item }` becomes `Fail`
+                let (f, x) = self.eval(v, fs, depth, true);
+                if f != Flow::Done {
+                    return (f, x);
                 }
+                if try_fails(x) {
+                    if let Some(c) = self.pending.take() {
+                        if self.quirk_mode.try_handler {
+                            self.quirks.push(Quirk::TryHandlerDrops);
+                            self.dropped(c);
+                        } else {
+                            let f = self.cascade(c, fs, depth);
+                            if f != Flow::Done {
+                                return (f, x);
+                            }
+                        }
+                    }
+                    return (Flow::Fail, x);
+                }
+                if !tp {
+                    // not the end of an enclosing operand: the modification reaches `run_handler` now
+                    if let Some(c) = self.pending.take() {
+                        let f = self.cascade(c, fs, depth);
+                        return (f, x);
+                    }
+                }
+                (Flow::Done, x)
             }
         }
     }
 
-    fn run(&mut self, p: &P, fs: &mut FrameState, depth: usize) -> Flow {
+    fn run(&mut self, p: &P, fs: &mut FrameState, depth: usize, tp: bool) -> Flow {
         if self.overflow {
             return Flow::Overflow;
         }
         match p {
             P::Seq(ps) => {
-                if ps.is_empty() {
-                    self.tail = false;
-                }
-                for q in ps {
-                    let f = self.run(q, fs, depth);
+                for (i, q) in ps.iter().enumerate() {
+                    let f = self.run(q, fs, depth, tp && i + 1 == ps.len());
                     if f != Flow::Done {
                         return f;
                     }
@@ -469,35 +548,30 @@ impl<'a> Ref<'a> {
                 Flow::Done
             }
             P::Then(a, b) => {
-                let f = self.run(a, fs, depth);
+                let f = self.run(a, fs, depth, false);
                 if f != Flow::Done {
                     return f;
                 }
-                self.run(b, fs, depth)
+                self.run(b, fs, depth, tp)
             }
-            P::Set { lane, v } => self.set(*lane, *v, fs, depth),
-            P::Upd { lane, k, v } => self.upd(*lane, *k, *v, fs, depth),
-            P::Rem { lane, k } => self.rem(*lane, *k, fs, depth),
-            P::Clr { lane } => self.clr(*lane, fs, depth),
-            P::Discard(v) => self.eval(v, fs, depth).0,
+            P::Set { .. } | P::Upd { .. } | P::Rem { .. } | P::Clr { .. } => self.mutate(p, fs, depth, tp),
+            P::Discard(v) => self.eval(v, fs, depth, tp).0,
             P::Branch { first, how, arms } => {
                 self.stats.branches += 1;
-                self.stats.binds[how_index(*how)] += 1;
                 let (f, x) = self.bound(first, *how, fs, depth);
                 if f != Flow::Done {
                     return f;
                 }
-                self.run(&arms[arm_of(x, arms.len())], fs, depth)
+                self.run(&arms[arm_of(x, arms.len())], fs, depth, tp)
             }
             P::MutV { first, how, target, off } => {
                 self.stats.computed_mutations += 1;
-                self.stats.binds[how_index(*how)] += 1;
                 let (f, x) = self.bound(first, *how, fs, depth);
                 if f != Flow::Done {
                     return f;
                 }
                 let m = target.with_value(to_val(x, *off));
-                self.run(&m, fs, depth)
+                self.run(&m, fs, depth, tp)
             }
             P::Eff(l) => {
                 self.push(Rec::Eff(*l));
@@ -519,8 +593,8 @@ impl<'a> Ref<'a> {
         self.out.clear();
         self.spawned.clear();
         self.quirks.clear();
-        self.tail = false;
-        self.last_mut = None;
+        self.pending = None;
+        self.saw_tail_modification = false;
         let mut fs = FrameState::default();
         let t = self.t;
         static EMPTY: P = P::Seq(vec![]);
@@ -533,17 +607,17 @@ impl<'a> Ref<'a> {
                     Top::Spawned(i) => t.spawn.get(*i as usize).unwrap_or(&EMPTY),
                 };
                 self.push(Rec::Begin(*top));
-                let f = self.run(body, &mut fs, 0);
+                let f = self.run(body, &mut fs, 0, false);
                 if f == Flow::Done {
                     self.push(Rec::End(*top));
                 }
                 f
             }
             Trigger::Ext(Cmd::Run(i)) => return self.block(&Trigger::Top(Top::Run(*i))),
-            Trigger::Ext(Cmd::Set { lane, v }) => self.set(*lane, *v, &mut fs, 0),
-            Trigger::Ext(Cmd::Upd { lane, k, v }) => self.upd(*lane, *k, *v, &mut fs, 0),
-            Trigger::Ext(Cmd::Rem { lane, k }) => self.rem(*lane, *k, &mut fs, 0),
-            Trigger::Ext(Cmd::Clr { lane }) => self.clr(*lane, &mut fs, 0),
+            Trigger::Ext(Cmd::Set { lane, v }) => self.mutate(&P::Set { lane: *lane, v: *v }, &mut fs, 0, false),
+            Trigger::Ext(Cmd::Upd { lane, k, v }) => self.mutate(&P::Upd { lane: *lane, k: *k, v: *v }, &mut fs, 0, false),
+            Trigger::Ext(Cmd::Rem { lane, k }) => self.mutate(&P::Rem { lane: *lane, k: *k }, &mut fs, 0, false),
+            Trigger::Ext(Cmd::Clr { lane }) => self.mutate(&P::Clr { lane: *lane }, &mut fs, 0, false),
         };
         if self.overflow {
             flow = Flow::Overflow;
@@ -784,6 +858,24 @@ pub fn verify(t: &Tables, trace: &[Rec], sent: &[Cmd], outcome: &Outcome) -> Rep
             }
             _ => {}
         }
+        // (implementation mirror) a map handler at top level that no command explains may be the stale event of
+        // a dropped modification, consumed by a remote's removal of an absent key
+        let trig = match &trig {
+            Trigger::Ext(cmd @ (Cmd::Upd { lane, .. } | Cmd::Rem { lane, .. } | Cmd::Clr { lane }))
+                if avail.get(cmd).copied().unwrap_or(0) == 0 && r.stale_kind(*lane) == Some(first.kind()) =>
+            {
+                let lane = *lane;
+                let absent = avail.iter().find_map(|(c, n)| match c {
+                    Cmd::Rem { lane: l, k } if *l == lane && *n > 0 && !r.model.m[(lane / 2) as usize].contains_key(k) => Some(c.clone()),
+                    _ => None,
+                });
+                match absent {
+                    Some(c) => Trigger::Ext(c),
+                    None => trig,
+                }
+            }
+            _ => trig,
+        };
         match &trig {
             Trigger::Top(Top::Spawned(p)) => {
                 let n = pending.entry(*p).or_default();
@@ -840,7 +932,7 @@ pub fn verify(t: &Tables, trace: &[Rec], sent: &[Cmd], outcome: &Outcome) -> Rep
         }
         // --- expected records of this block from the model state at its start
         let start_model = r.model.clone();
-        r.quirk_mode = false;
+        r.quirk_mode = QuirkSet::default();
         let (mut exp, mut flow, mut spawned) = r.block(&trig);
         if flow == Flow::Overflow {
             rep.overflow = true;
@@ -848,39 +940,57 @@ pub fn verify(t: &Tables, trace: &[Rec], sent: &[Cmd], outcome: &Outcome) -> Rep
             break;
         }
         rep.blocks += 1;
-        rep.quirk_sites += r.quirks.len();
+        rep.quirk_sites += r.saw_tail_modification as usize;
         let first_diff = |exp: &[Rec]| -> Option<usize> { (0..exp.len()).find(|i| trace.get(pos + i) != Some(&exp[*i])) };
         let mut bad = first_diff(&exp);
-        if bad.is_some() && !r.quirks.is_empty() {
-            // the block contains a site where the implementation evaluates a continuation closure before the
-            // handlers triggered by the first operand's last step: does the observed trace match that?
-            let doc_model = std::mem::replace(&mut r.model, start_model);
-            r.quirk_mode = true;
-            let (exp2, flow2, spawned2) = r.block(&trig);
-            r.quirk_mode = false;
-            if flow2 != Flow::Overflow && first_diff(&exp2).is_none() {
-                let mut qs = r.quirks.clone();
-                qs.sort();
-                qs.dedup();
-                for q in qs {
-                    fail!(
-                        q.sig(),
-                        "block {:?} starting at {}: the observed records equal the execution in which the continuation closure is \
-                         evaluated in the same step as the first operand's final lane modification (before / instead of the handlers \
-                         that modification triggers), not the documented depth-first order.\n documented = {:?}\n observed   = {:?}",
-                        trig,
-                        pos,
-                        exp,
-                        exp2
-                    );
+        if bad.is_some() && r.saw_tail_modification {
+            // The block contains a site where the implementation evaluates a continuation closure in the step in
+            // which the first operand completed with a lane modification. Does the observed trace equal the
+            // execution that mirrors the implementation at (some of) the three kinds of site? Of the variants
+            // that explain the observed records the longest one is taken (an aborted block is a prefix of
+            // anything).
+            let doc_model = r.model.clone();
+            let mut best: Option<(Vec<Rec>, Flow, Vec<u16>, Vec<Quirk>, Model, usize)> = None;
+            for qs in QuirkSet::all_nonempty() {
+                r.model = start_model.clone();
+                r.quirk_mode = qs;
+                let (e2, f2, s2) = r.block(&trig);
+                if f2 == Flow::Overflow || first_diff(&e2).is_some() {
+                    continue;
                 }
-                rep.quirk_blocks += 1;
-                exp = exp2;
-                flow = flow2;
-                spawned = spawned2;
-                bad = None;
-            } else {
-                r.model = doc_model;
+                let better = match &best {
+                    None => true,
+                    Some((e, _, _, _, _, n)) => e2.len() > e.len() || (e2.len() == e.len() && qs.count() < *n),
+                };
+                if better {
+                    best = Some((e2, f2, s2, r.quirks.clone(), r.model.clone(), qs.count()));
+                }
+            }
+            r.quirk_mode = QuirkSet::default();
+            match best {
+                Some((e2, f2, s2, mut qs, model, _)) => {
+                    qs.sort();
+                    qs.dedup();
+                    for q in qs {
+                        fail!(
+                            q.sig(),
+                            "block {:?} starting at {}: the observed records equal the execution in which the continuation closure is \
+                             evaluated in the same step as the first operand's final lane modification (before / instead of the handlers \
+                             that modification triggers), not the documented depth-first order.\n documented = {:?}\n observed   = {:?}",
+                            trig,
+                            pos,
+                            exp,
+                            e2
+                        );
+                    }
+                    rep.quirk_blocks += 1;
+                    r.model = model;
+                    exp = e2;
+                    flow = f2;
+                    spawned = s2;
+                    bad = None;
+                }
+                None => r.model = doc_model,
             }
         }
         if let Some(i) = bad {
